@@ -49,8 +49,8 @@ func (r *Hosts) Name() string {
 }
 
 func (r *Hosts) Visit(f func(name string, addrs []string)) {
-	r.mu.RLock()
-	defer r.mu.RUnlock()
+	r.mu.Lock()
+	defer r.mu.Unlock()
 	r.refreshLocked()
 	for name, addrs := range r.names {
 		f(name, addrs)
@@ -58,15 +58,15 @@ func (r *Hosts) Visit(f func(name string, addrs []string)) {
 }
 
 func (r *Hosts) LookupAddr(addr string) []string {
-	r.mu.RLock()
-	defer r.mu.RUnlock()
+	r.mu.Lock()
+	defer r.mu.Unlock()
 	r.refreshLocked()
 	return r.addrs[addr]
 }
 
 func (r *Hosts) LookupHost(name string) []string {
-	r.mu.RLock()
-	defer r.mu.RUnlock()
+	r.mu.Lock()
+	defer r.mu.Unlock()
 	r.refreshLocked()
 	return r.names[prepareHostLookup(name)]
 }
